@@ -236,8 +236,13 @@ class Gen:
     def compound(self, depth, used, kinds=None, leaves=None):
         rng = self.rng
         leaves = leaves if leaves is not None else sorted(self.leafb)
+        default_kinds = kinds is None
         kinds = kinds or ["AtLeast", "AtMost", "All", "Any", "Any", "All", "Xor", "ExactlyOne", "XNor", "Imply",
                           "Not", "ccAny", "ccXor"]
+        if default_kinds and rng.random() < 0.06:
+            c = self.cicje()
+            if c is not None:
+                return c
         t = rng.choice(kinds)
         n = rng.randint(1, min(self.p["fan"], len(leaves)))
         if t in ("Imply",):
@@ -301,6 +306,27 @@ class Gen:
                     default = ["dv", d, lo, hi]
             return [t, ch, default, ident]
         raise AssertionError(t)
+
+    def cicje(self):
+        """a rule given as a cicJE dictionary (Imply.from_cicJE); boolean leaves only"""
+        rng = self.rng
+        bools = [i for i in sorted(self.leafb) if self.leafb[i] == (0, 1)]
+        if len(bools) < 3:
+            return None
+
+        def comps(n):
+            return [{"id": i} for i in rng.sample(bools, min(n, len(bools)))]
+        data = {"consequence": {"ruleType": rng.choice(["REQUIRES_ALL", "REQUIRES_ANY", "ONE_OR_NONE", "FORBIDS_ALL",
+                                                         "REQUIRES_EXCLUSIVELY"]),
+                                "components": comps(rng.randint(1, 3))}}
+        if rng.random() < 0.8:
+            subs = []
+            for _ in range(rng.randint(1, 2)):
+                subs.append({"relation": rng.choice(["ALL", "ANY"]), "components": comps(rng.randint(1, 2))})
+            data["condition"] = {"relation": rng.choice(["ALL", "ANY"]), "subConditions": subs}
+        if rng.random() < 0.5:
+            data["id"] = rng.choice("STUVW")
+        return ["cicJE", data]
 
     def configurator(self, used):
         rng = self.rng
